@@ -334,6 +334,14 @@ def construct(case, inp):
         df = pd.DataFrame({"temperature": temp})
         df["observed"] = meter.iloc[:-1].reindex(df.index)  # final frame row = last day of the last period
         df = df[["observed", "temperature"]]
+    extra = case.get("extra_column")
+    if extra:
+        # a column that is no criterion at all (a bookkeeping / sensor column the caller's frame carries)
+        k = {"complete": 0, "nan_first_40_days": 40, "nan_first_180_days": 180, "all_nan": len(df)}[extra]
+        rows = k if extra == "all_nan" else k * (24 if kind == "hourly" else 1)
+        col = np.full(len(df), 50.0)
+        col[:rows] = np.nan
+        df["humidity"] = col
     if form == "no_column":
         df = df.drop(columns=["observed"])
     elif form == "nan_column":
@@ -683,7 +691,21 @@ def utcform_cases(tier):
     return out
 
 
-FAMILIES = [("thresholds grid", grid_cases), ("value defects", value_cases), ("DST zones", dst_cases),
+def extracol_cases(tier):
+    """frames that carry a column no criterion reads, with missing values in it: the verdict is that of the meter and the weather"""
+    out = []
+    for kind in CLASSES:
+        for role in ROLES:
+            for n in (365, 400) if role == "baseline" else (30, 365):
+                for extra in ("complete", "nan_first_40_days", "nan_first_180_days", "all_nan"):
+                    if role == "reporting" and n == 30 and extra != "all_nan" and extra != "complete":
+                        continue
+                    out.append({"fam": "extracol", "cls": kind, "role": role, "fuel": "electric", "entry": "frame",
+                                "feed": "h" if kind == "hourly" else "D", "N": n, "m": 0, "what": "none", "extra_column": extra})
+    return out
+
+
+FAMILIES = [("thresholds grid", grid_cases), ("unrelated column with missing values", extracol_cases), ("value defects", value_cases), ("DST zones", dst_cases),
             ("per-month coverage", month_cases), ("gaps as absent rows", absent_cases), ("no-midnight day at the edge of the data", midnight_edge_cases), ("empty columns", nodata_cases),
             ("temperature-only reporting", tonly_cases), ("billing NaN reads", bgap_cases),
             ("UTC spellings / datetime column", utcform_cases)]
